@@ -181,8 +181,29 @@ Section Group.
 
   Notation rule_ok_prom := (rule_valid expr_ok dur_zero metric_ok lname_ok lvalue_ok tmpl_prom).
 
+  (** ---- the group-level guard: everything plain, except that below the items of `rules` the rule-level guard applies
+      (aliases as values of rule keys and of rule labels / annotations) ---- *)
+  Definition rules_guard (v : node) : Prop := plain_node v /\ forall rn, In rn (n_content v) -> rule_guard rn.
+
+  Definition group_guard (gn : node) : Prop :=
+    plain_node gn /\
+    forall k v, In (k, v) (mapping_nodes gn) ->
+      plain_below k /\ (n_value k = "rules" -> rules_guard v) /\ (n_value k <> "rules" -> plain_below v).
+
+  Lemma plain_group_guard gn : plain_below gn -> group_guard gn.
+  Proof.
+    intros H. split; [exact (plain_self gn H)|]. intros k v Hin. destruct (plain_pairs gn k v H Hin) as [A B].
+    split; [exact A|]. split; [|intros _; exact B]. intros _. split; [exact (plain_self v B)|].
+    intros rn Hrn. apply plain_rule_guard. eapply plain_below_content; eassumption.
+  Qed.
+
+  Lemma unpack_items v : plain_node v -> (forall c, In c (n_content v) -> plain_node c) -> unpack_nodes v = n_content v.
+  Proof.
+    intros _ H. unfold unpack_nodes. apply unpack_loop_plain. intros c Hc. exact (plain_not_merge c (H c Hc)).
+  Qed.
+
   Theorem group_sound gn :
-    plain_below gn ->
+    group_guard gn ->
     let g := PG lines gn in
     g_error g = None ->
     (forall r, In r (g_rules g) -> r_error r = None /\ rule_blocks expr_ok dur_ok tmpl_pint (g_labels g) r = false) ->
@@ -190,7 +211,7 @@ Section Group.
     (exists pg, dec_group str_ok int_ok null_ok dur_ok gn = DOk pg /\ pg_name pg = g_name g /\ g_name g <> "" /\
                 forallb (label_ok lname_ok lvalue_ok) (pg_labels pg) = true /\ forallb rule_ok_prom (pg_rules pg) = true).
   Proof.
-    intros Hp g Hge Hrules. pose proof (plain_self gn Hp) as Hgn.
+    intros Hp g Hge Hrules. pose proof (proj1 Hp) as Hgn.
     unfold g, parse_group in *. clear g.
     destruct (negb (is_tag (n_tag gn) mapTag)) eqn:Et; [discriminate Hge|]. apply negb_false_iff in Et.
     destruct (n_kind gn) eqn:K; try (destruct Hgn as [_ X]; rewrite K in X; contradiction).
@@ -199,7 +220,7 @@ Section Group.
     - (* mapping *)
       right. set (ps := mapping_nodes gn) in *.
       assert (Hna : forall kv, In kv ps -> n_alias (fst kv) = None).
-      { intros [k x] Hin. destruct (plain_pairs gn k x Hp Hin) as [Hpk _]. exact (proj1 (plain_self k Hpk)). }
+      { intros [k x] Hin. destruct (proj2 Hp k x Hin) as [Hpk _]. exact (proj1 (plain_self k Hpk)). }
       change (kind_eqb KMapping KMapping) with true in *.
       destruct (group_loop_spec true (n_line gn) ps empty_group [] Hna eq_refl Hge) as (F1 & F2 & F3 & F4 & F5 & F6).
       set (G := group_loop plines metric_ok lname_ok lvalue_ok dur_ok int_ok false lines true (n_line gn) empty_group [] ps) in *.
@@ -212,10 +233,10 @@ Section Group.
         destruct Hok as [(E & _)|[([E|E] & _)|[(E & _)|[(E & _)|(E & _)]]]]; rewrite E; cbn; split; try tauto; discriminate. }
       assert (Hdec : dec_fields str_ok null_ok (Some group_fields) gn = DOk a).
       { apply dec_fields_plain; auto.
-        - split; [|exact F2]. intros k v Hin. destruct (plain_pairs gn k v Hp Hin) as [Hpk _].
+        - split; [|exact F2]. intros k v Hin. destruct (proj2 Hp k v Hin) as [Hpk _].
           pose proof (plain_self k Hpk) as Hkn. split; [exact Hkn|]. split.
           + apply plain_nonempty_scalar; auto. exact (proj2 (Hkeys k v Hin)).
-          + exact (plain_mapping_keys gn k v (plain_self gn Hp) K Hin).
+          + exact (plain_mapping_keys gn k v Hgn K Hin).
         - intros fields E s0 Hs. inversion E; subst fields. apply in_map_iff in Hs. destruct Hs as ([k v] & <- & Hin).
           exact (proj1 (Hkeys k v Hin)). }
       assert (Lk : forall name, look name a = option_map snd (find_key name ps)).
@@ -227,7 +248,7 @@ Section Group.
                    | None => True end).
       { destruct (find_key "rules" ps) as [[kr vr]|] eqn:Fr; [|exact I].
         destruct (find_key_In _ _ _ _ Fr) as [Hin Ek]. destruct (F1 kr vr Hin) as [Hok _].
-        destruct (plain_pairs gn kr vr Hp Hin) as [_ Hpv]. pose proof (plain_self vr Hpv) as Hv.
+        destruct (proj2 Hp kr vr Hin) as (_ & Hrg & _). destruct (Hrg Ek) as [Hv Hitems].
         unfold group_pair_ok in Hok. rewrite (node_value_noalias kr (Hna (kr, vr) Hin)), Ek in Hok.
         destruct Hok as [(E & _)|[([E|E] & _)|[(E & _)|[(E & _)|(_ & Ht)]]]]; try discriminate E.
         destruct (is_tag_true _ _ Ht) as [T|T].
@@ -235,9 +256,9 @@ Section Group.
           apply (dec_slice_null null_ok H_null); auto. apply plain_str_scalar; auto.
         - pose proof (plain_seq_tag vr Hv T) as Kv. unfold dec_slice. rewrite (deref_plain vr (proj1 Hv)), Kv.
           destruct (dec_items_ok (dec_rule str_ok null_ok dur_ok) rule_ok_prom (n_content vr)) as (prs & E1 & E2).
-          { intros rn Hrn. assert (Hprn : plain_below rn) by (eapply plain_below_content; eassumption).
+          { intros rn Hrn. pose proof (Hitems rn Hrn) as Hprn.
             assert (Hr : In (PRS lines rn) (g_rules G)).
-            { rewrite F5. apply in_map. rewrite (unpack_plain vr Hpv). exact Hrn. }
+            { rewrite F5. apply in_map. rewrite (unpack_items vr Hv (fun c Hc => proj1 (Hitems c Hc))). exact Hrn. }
             destruct (Hrules _ Hr) as [He Hb].
             eapply rule_sound; eauto. }
           exists prs. left. rewrite E1. split; [reflexivity|exact E2]. }
@@ -247,14 +268,15 @@ Section Group.
                    | None => True end).
       { destruct (find_key "labels" ps) as [[kl vl]|] eqn:Fl; [|exact I].
         destruct (find_key_In _ _ _ _ Fl) as [Hin Ek]. destruct (F1 kl vl Hin) as [Hok _].
-        destruct (plain_pairs gn kl vl Hp Hin) as [_ Hpv]. pose proof (plain_self vl Hpv) as Hv.
+        destruct (proj2 Hp kl vl Hin) as (_ & _ & Hpv'). assert (Hpv : plain_below vl) by (apply Hpv'; rewrite Ek; discriminate).
+        pose proof (plain_self vl Hpv) as Hv.
         unfold group_pair_ok in Hok. rewrite (node_value_noalias kl (Hna (kl, vl) Hin)), Ek in Hok.
         destruct Hok as [(E & _)|[([E|E] & _)|[(E & _)|[(_ & T & Hval & Hbad)|(E & _)]]]]; try discriminate E.
         pose proof (plain_map_tag vl Hv T) as Kv.
         assert (Hne : forall k v, In (k, v) (mapping_nodes vl) -> n_value k <> "").
         { intros k v Hkv E. destruct (bad_group_label_none _ Hbad k v Hkv) as (L1 & _). rewrite E in L1. congruence. }
         assert (Ht : is_tag (n_tag vl) mapTag = true) by (rewrite T; reflexivity).
-        destruct (strmap_of_validated str_ok null_ok H_str H_null "labels" vl 0 (0, 0) Hpv Ht Hval Hne) as [[T' _]|[_ E]].
+        destruct (strmap_of_validated str_ok null_ok H_str H_null "labels" vl 0 (0, 0) (or_introl Hpv) Ht Hval Hne) as [[T' _]|[_ E]].
         { rewrite T in T'. discriminate. }
         exists (pairs_text (mapping_nodes vl)). split; [exact E|].
         apply forallb_forall. intros [a0 b0] Hab. unfold pairs_text in Hab. apply in_map_iff in Hab.
@@ -262,19 +284,22 @@ Section Group.
         destruct (bad_group_label_none _ Hbad kk vv Hkv) as (L1 & L2 & L3).
         unfold label_ok. cbn [fst snd]. change (key_text (kk, vv)) with (n_value kk). rewrite L1.
         apply String.eqb_neq in L2. rewrite L2. cbn [negb andb]. unfold str_val.
-        destruct (String.eqb (n_tag vv) nullTag); [exact H_lvalue_empty|].
-        destruct (plain_pairs vl kk vv Hpv Hkv) as [_ Hpvv]. now rewrite (node_value_plain vv (plain_self vv Hpvv)) in L3. }
+        destruct (String.eqb (n_tag (deref vv)) nullTag); [exact H_lvalue_empty|].
+        now rewrite <- node_value_deref. }
       (* no field fails to decode *)
       assert (Herrs : existsb (group_field_err str_ok int_ok null_ok dur_ok) a = false).
       { apply not_true_is_false. intro X. apply existsb_exists in X.
         destruct X as ([name x] & Hin & Herr). apply in_map_iff in Hin. destruct Hin as ([k x'] & E & Hin).
         inversion E; subst name x'. clear E. change (key_text (k, x)) with (n_value k) in Herr.
-        destruct (F1 k x Hin) as [Hok _]. destruct (plain_pairs gn k x Hp Hin) as [_ Hpx]. pose proof (plain_self x Hpx) as Hx.
+        destruct (F1 k x Hin) as [Hok _].
+        assert (Hx' : n_value k <> "rules" -> plain_node x).
+        { intros Hk. destruct (proj2 Hp k x Hin) as (_ & _ & Hpx). exact (plain_self x (Hpx Hk)). }
         unfold group_pair_ok in Hok. rewrite (node_value_noalias k (Hna (k, x) Hin)) in Hok.
         assert (Hsc : forall tag, scalar_with_tag x tag = true -> n_kind x = KScalar /\ n_tag x = tag).
         { intros tag Hs. unfold scalar_with_tag in Hs. apply andb_true_iff in Hs. destruct Hs as [A B].
           split; [now apply kind_eqb_eq|now apply String.eqb_eq]. }
-        destruct Hok as [(E & Hs & Hne)|[([E|E] & Hs & Hd)|[(E & Hs & Hi)|[(E & T & Hval & Hbad)|(E & Ht)]]]]; rewrite E in Herr; cbn in Herr.
+        destruct Hok as [(E & Hs & Hne)|[([E|E] & Hs & Hd)|[(E & Hs & Hi)|[(E & T & Hval & Hbad)|(E & Ht)]]]]; rewrite E in Herr; cbn in Herr;
+          try (assert (Hx : plain_node x) by (apply Hx'; rewrite E; discriminate)).
         - destruct (Hsc _ Hs) as [Kx Tx].
           rewrite (dec_string_scalar str_ok null_ok H_str H_null x Hx Kx), Tx in Herr. cbn in Herr. discriminate.
         - destruct (Hsc _ Hs) as [Kx Tx].
@@ -302,7 +327,8 @@ Section Group.
       { destruct (F6 (or_introl eq_refl)) as [Y|[]]. exact Y. }
       destruct (find_key "name" ps) as [[kn vn]|] eqn:Fn; [|exfalso; exact (find_none_iff _ _ Fn Hname_in)].
       destruct (find_key_In _ _ _ _ Fn) as [Hinn Ekn]. destruct (F1 kn vn Hinn) as [Hokn _].
-      destruct (plain_pairs gn kn vn Hp Hinn) as [_ Hpvn]. pose proof (plain_self vn Hpvn) as Hvn.
+      destruct (proj2 Hp kn vn Hinn) as (_ & _ & Hpvn'). assert (Hpvn : plain_below vn) by (apply Hpvn'; rewrite Ekn; discriminate).
+      pose proof (plain_self vn Hpvn) as Hvn.
       unfold group_pair_ok in Hokn. rewrite (node_value_noalias kn (Hna (kn, vn) Hinn)), Ekn in Hokn.
       destruct Hokn as [(_ & Hs & Hne)|[([E|E] & _)|[(E & _)|[(E & _)|(E & _)]]]]; try discriminate E.
       unfold scalar_with_tag in Hs. apply andb_true_iff in Hs. destruct Hs as [Ks Ts]. apply kind_eqb_eq in Ks. apply String.eqb_eq in Ts.
@@ -340,7 +366,7 @@ Section Group.
   Qed.
 
   Lemma groups_seq_sound : forall items names acc names' acc' seen,
-    (forall gn, In gn items -> plain_below gn) ->
+    (forall gn, In gn items -> group_guard gn) ->
     groups_of_seq plines metric_ok lname_ok lvalue_ok dur_ok int_ok false lines items names acc = inr (names', acc') ->
     (forall gn, In gn items -> pint_group_ok (PG lines gn)) ->
     (forall s, In s seen -> In s names) ->
@@ -383,7 +409,18 @@ Section Doc.
   (** ---- the document ---- *)
   Definition guards_doc (d : node) : Prop :=
     n_kind d = KDocument /\
-    exists root, n_content d = [root] /\ plain_below root.
+    exists root, n_content d = [root] /\ plain_node root /\
+                 forall k v, In (k, v) (mapping_nodes root) ->
+                   plain_below k /\ plain_node v /\ forall gn, In gn (n_content v) -> group_guard gn.
+
+  (** the alias-free fragment of the earlier rounds is inside the guard *)
+  Lemma plain_guards_doc d root :
+    n_kind d = KDocument -> n_content d = [root] -> plain_below root -> guards_doc d.
+  Proof.
+    intros Kd Cd Hp. split; [exact Kd|]. exists root. split; [exact Cd|]. split; [exact (plain_self root Hp)|].
+    intros k v Hin. destruct (plain_pairs root k v Hp Hin) as [A B]. split; [exact A|]. split; [exact (plain_self v B)|].
+    intros gn Hgn. apply plain_group_guard. eapply plain_below_content; eassumption.
+  Qed.
 
   Notation blocks := (strict_blocks expr_ok dur_ok tmpl_pint).
   Notation PS := (parse_strict plines metric_ok lname_ok lvalue_ok dur_ok int_ok false).
@@ -418,7 +455,7 @@ Section Doc.
   Theorem doc_sound d nl :
     guards_doc d -> blocks (PS lines [(d, nl)] None) = false -> accepts [d] = true.
   Proof.
-    intros (Kd & root & Cd & Hp) Hb.
+    intros (Kd & root & Cd & Hroot & Hp) Hb.
     destruct (blocks_false_inv _ Hb) as [Hfe Hgs]. clear Hb.
     fold (pint_group_ok dur_ok expr_ok tmpl_pint) in Hgs.
     unfold parse_strict in *. cbn [parse_strict_loop] in *.
@@ -426,7 +463,6 @@ Section Doc.
     destruct (parse_groups plines metric_ok lname_ok lvalue_ok dur_ok int_ok false L d) as [e|gs] eqn:PGs; [discriminate Hfe|].
     cbn [app f_groups] in Hgs. clear Hfe.
     unfold parse_groups in PGs.
-    assert (Hroot : plain_node root) by exact (plain_self root Hp).
     assert (Hu : unpack_nodes d = [root]).
     { unfold unpack_nodes. rewrite Cd. apply unpack_loop_plain. intros c [<-|[]]. exact (plain_not_merge root Hroot). }
     rewrite Hu in PGs. cbn [groups_of_roots] in PGs.
@@ -452,8 +488,8 @@ Section Doc.
         pose proof (groups_of_entries_true _ _ _ _ _ _ _ _ _ _ _ _ GE) as Hrest. subst rest.
         cbn [groups_of_entries] in GE. inversion GE; subst n1 gs. clear GE.
         assert (Hin : In (k, v) (mapping_nodes root)) by (fold ps; rewrite Eps; left; reflexivity).
-        destruct (plain_pairs root k v Hp Hin) as [Hpk Hpv].
-        pose proof (plain_self k Hpk) as Hk. pose proof (plain_self v Hpv) as Hv.
+        destruct (Hp k v (or_introl eq_refl)) as (Hpk & Hv & Hgroups).
+        pose proof (plain_self k Hpk) as Hk.
         rewrite (node_value_plain k Hk) in E2.
         assert (Hd : dec_fields str_ok null_ok (Some ["groups"]) root = DOk [("groups", v)]).
         { rewrite (dec_fields_plain str_ok int_ok null_ok H_str (Some ["groups"]) root Hroot K); fold ps; rewrite Eps.
@@ -469,11 +505,10 @@ Section Doc.
         destruct (is_tag_true _ _ E3) as [T|T]; [|unfold dec_slice; rewrite (deref_plain v (proj1 Hv))].
         * rewrite (dec_slice_null null_ok H_null _ v Hv (plain_str_scalar v Hv (or_intror T)) T). reflexivity.
         * pose proof (plain_seq_tag v Hv T) as Kv. rewrite Kv.
-          rewrite (unpack_plain v Hpv) in GS.
+          rewrite (unpack_items v Hv (fun c Hc => proj1 (Hgroups c Hc))) in GS.
           pose proof (groups_of_seq_spec _ _ _ _ _ _ _ _ _ _ _ _ GS) as Ha2. cbn [app] in Ha2.
           destruct (groups_seq_sound plines metric_ok lname_ok lvalue_ok dur_ok expr_ok tmpl_pint tmpl_prom dur_zero str_ok int_ok null_ok
                                      H_str H_null H_tmpl H_lname_empty H_lvalue_empty H_tmpl_empty L (n_content v) [] [] n2 a2 []) as (pgs & E1' & E2'); auto.
-          { intros gn Hgn. eapply plain_below_content; eassumption. }
           { intros gn Hgn. apply Hgs. rewrite Ha2. apply in_map. exact Hgn. }
           rewrite E1'. exact E2'.
     - (* null document root *)
